@@ -21,7 +21,7 @@ K = 1e4
 @st.composite
 def _case3(draw, decades=1.0):
     r = None if draw(st.integers(0, 9)) == 0 else draw(st.sampled_from([-3.0, -2.5, -2.0, -1.5, -1.0, -0.5, 0.0, 0.5, 1.0, 1.5, 2.0])) + draw(zoo.f(-0.25, 0.25))
-    return {"cvx": draw(zoo.convex3d(max_n=24)), "place": draw(zoo.placement(max_offset=5.0, scale_decades=decades)), "logr": r,
+    return {"cvx": draw(zoo.convex3d(max_n=24, kinds=("ellipsoid", "lattice", "prismatoid", "tabulated", "roofed"))), "place": draw(zoo.placement(max_offset=5.0, scale_decades=decades)), "logr": r,
             "perm": draw(zoo.noise(64))}
 
 
